@@ -56,6 +56,21 @@ CHECKS["C20"] = dict(
     technique="Lean 4 proof by decide over the complete decision table regenerated from source + exhaustive fault enumeration on the binaries",
 )
 
+CHECKS["C15"] = dict(
+    category="proof",
+    text=("Model/Refs.lean is the state machine of property references as the Lua commands manipulate them (property vectors, "
+          "entities holding (index, name), name->index map = last match, save by index, consistencyCheckOK gate); ghost "
+          "identities make 'the same property' expressible. Properties/C15.lean proves by induction over ALL histories of "
+          "add / delete / rename / assign that the property a saved slot designates is exactly the one its last assignment "
+          "resolved to, or none once that property is deleted; that saved indices are always in range; that only an "
+          "assignment ever re-binds a slot; plus a decide-witness that the code before the repair violated it. Tied to the "
+          "code by running histories (exhaustive to depth 3/4 over a reduced alphabet, random to length 40 over all four "
+          "property kinds and three physics) as Lua scripts through the real femmcli and comparing the saved files "
+          "(independent parser) with the model, and judged by an identity-tracking oracle independent of the model."),
+    design_ref="DESIGN.md section 3, C15",
+    technique="Lean 4 proof (invariant by induction over operation histories, refinement to ghost identities) + model/implementation correspondence over exhaustive and random Lua edit histories",
+)
+
 NOT_YET = "check not built yet in this round; planned per DESIGN.md section 3 (Lean model + correspondence)"
 
 
